@@ -11,8 +11,11 @@ import subprocess
 import sys
 import time
 
-REPO = "/repo"
 VERIF = "/verif"
+# default: a scratch worktree of /repo (checks follow VERIF_REPO), so that /repo itself — which background
+# sweeps may be using — is never changed; `SEEDED_IN_PLACE=1` applies the patch to /repo itself instead
+IN_PLACE = os.environ.get("SEEDED_IN_PLACE") == "1"
+REPO = "/repo"
 
 
 def sh(cmd, cwd=None, timeout=3600):
@@ -21,12 +24,21 @@ def sh(cmd, cwd=None, timeout=3600):
 
 
 def main():
+    global REPO
     mid, props = sys.argv[1], sys.argv[2:]
     d = os.path.join(VERIF, "seeded", mid)
     patch = os.path.join(d, "patch.diff")
+    if not IN_PLACE:
+        REPO = "/var/tmp/seeded-" + mid
+        sh(["git", "-C", "/repo", "worktree", "remove", "--force", REPO])
+        rc, out = sh(["git", "-C", "/repo", "worktree", "add", "-q", "--detach", REPO, "HEAD"])
+        if rc != 0:
+            print("cannot create worktree:\n" + out)
+            return 2
+        os.environ["VERIF_REPO"] = REPO
     rc, out = sh(["git", "-C", REPO, "status", "--porcelain"])
     if out.strip():
-        print("refusing: /repo has uncommitted changes:\n" + out)
+        print("refusing: %s has uncommitted changes:\n" % REPO + out)
         return 2
     rc, out = sh(["git", "-C", REPO, "apply", "--3way", patch])
     if rc != 0:
@@ -66,9 +78,12 @@ def main():
             open(ep, "wb").write(data)
     json.dump({"mutant": mid, "checks": results, "at_repo_commit": sh(["git", "-C", REPO, "rev-parse", "--short", "HEAD"])[1].strip()},
               open(os.path.join(d, "result.json"), "w"), indent=1)
+    # (at_repo_commit is taken before the worktree is removed)
     rc, out = sh(["git", "-C", REPO, "status", "--porcelain"])
     if out.strip():
-        print("WARNING: /repo not clean after undo:\n" + out)
+        print("WARNING: %s not clean after undo:\n" % REPO + out)
+    if not IN_PLACE:
+        sh(["git", "-C", "/repo", "worktree", "remove", "--force", REPO])
     return 0
 
 
